@@ -329,6 +329,45 @@ Section Content2.
     pose proof (filter_length_le_local (not_deleted d) (union [tA tl sl; tA tu su])) as P3. cbn [union fold_right] in P3 |- *.
     rewrite merge_nil_r in P3 |- *. pose proof (merge_length (tA tl sl) (tA tu su)). lia.
   Qed.
+  (* ---- union (read-only): reads answer as the first-wins union of the members; writes are refused (C01.union_rejects_writes) ---- *)
+  Definition is_read (o : op) : Prop := match o with Fetch _ | Stat _ | Enum _ _ => True | _ => False end.
+
+  Lemma find_bytes r ms :
+    find (fun o => match o with OBytes _ => true | _ => false end) (map (fun m => spec_out m (Fetch r)) ms) =
+    option_map OBytes (first_some (map (lookup r) ms)).
+  Proof.
+    induction ms as [|m ms IH]; [reflexivity|]. cbn [map find spec_out first_some].
+    destruct (lookup r m) as [b|]; [reflexivity|exact IH].
+  Qed.
+
+  Lemma first_bytes_spec r ms :
+    first_bytes (map (fun m => spec_out m (Fetch r)) ms) =
+    match first_some (map (lookup r) ms) with Some b => OBytes b | None => OErr ENotFound end.
+  Proof.
+    unfold first_bytes. rewrite find_bytes. destruct (first_some (map (lookup r) ms)) as [b|] eqn:S; [reflexivity|].
+    cbn [option_map]. destruct ms as [|m ms]; [reflexivity|]. cbn [map first_some spec_out] in *.
+    destruct (lookup r m); [discriminate|reflexivity].
+  Qed.
+
+  Theorem union_reads_refine T : okl content T -> forall s o, node_inv T s -> is_read o ->
+    node_inv T (fst (union_m (map tM T) s o)) /\
+    node_abs T (fst (union_m (map tM T) s o)) = node_abs T s /\
+    snd (union_m (map tM T) s o) = spec_out (node_abs T s) o.
+  Proof.
+    intros Hok [m|ks aux] o Hi Hr; [contradiction|]. cbn [node_inv node_abs] in *.
+    pose proof (absl_wf content T ks Hok Hi) as Hw. pose proof (wfm_sorted_all content _ Hw) as Hs.
+    assert (Ho : op_ok o) by (destruct o; try contradiction; exact I).
+    destruct (kid_steps_spec content T ks o Hok Hi Ho) as (A & B & C). cbv zeta in A, B, C.
+    destruct o as [r b sc|r|rs|c n|rs]; try contradiction; cbn [union_m fst snd node_inv node_abs].
+    - split; [exact A|]. split; [rewrite B; cbn [spec_state]; rewrite map_id; reflexivity|].
+      rewrite C, first_bytes_spec. cbn [spec_out]. rewrite lookup_union_first by exact Hs. reflexivity.
+    - split; [exact A|]. split; [rewrite B; cbn [spec_state]; rewrite map_id; reflexivity|].
+      rewrite C, has_err_stat. rewrite <- (map_map snd stat_list), C, map_map. cbn [spec_out stat_list].
+      f_equal. apply union_stat. exact Hs.
+    - split; [exact A|]. split; [rewrite B; cbn [spec_state]; rewrite map_id; reflexivity|].
+      rewrite C, has_err_enum. rewrite <- (map_map snd enum_list), C, map_map. cbn [spec_out enum_list].
+      f_equal. apply union_enum. exact Hs.
+  Qed.
 End Content2.
 
 Lemma refill_needs_rounds :
